@@ -6,6 +6,8 @@ import (
 	"math/big"
 	"strconv"
 	"strings"
+	"sync/atomic"
+	"time"
 
 	"google.golang.org/grpc/status"
 	"massnet.org/mass/api"
@@ -100,7 +102,7 @@ func (g *G) createdWithinFree(what string, o outcome, dir int) {
 		}
 	}
 	if t.Cmp(u64(g.freeOf(dir))) > 0 {
-		g.h.Fail("created-beyond-free-disk", fmt.Sprintf("%s: %s bytes of new spaces were created in directory %d, which has %d bytes free", what, t, dir, g.freeOf(dir)))
+		g.h.Fail("C15:created-beyond-free-disk", fmt.Sprintf("%s: %s bytes of new spaces were created in directory %d, which has %d bytes free", what, t, dir, g.freeOf(dir)))
 	}
 }
 
@@ -189,12 +191,12 @@ func (g *G) pathOracles(what string, as []alloc, o outcome) {
 	}
 	for _, c := range o.created {
 		if !distinct[c.dir] {
-			g.h.Fail("new-outside-dirs", fmt.Sprintf("%s: a new space %s was created outside the requested directories", what, c))
+			g.h.Fail("C15:new-outside-dirs", fmt.Sprintf("%s: a new space %s was created outside the requested directories", what, c))
 		}
 	}
 	for _, s := range o.sel {
 		if !distinct[s.dir] {
-			g.h.Fail("selected-outside-dirs", fmt.Sprintf("%s: space %s of another directory was selected", what, s))
+			g.h.Fail("C15:selected-outside-dirs", fmt.Sprintf("%s: space %s of another directory was selected", what, s))
 		}
 	}
 	must := !anyMin
@@ -246,17 +248,17 @@ func (g *G) opByBL(req []blc) {
 		}
 		for _, r := range req {
 			if got[r.bl] != r.n {
-				g.h.Fail("count-mismatch", fmt.Sprintf("%s: %d spaces of bit length %d configured, %d requested", op, got[r.bl], r.bl, r.n))
+				g.h.Fail("C15:count-mismatch", fmt.Sprintf("%s: %d spaces of bit length %d configured, %d requested", op, got[r.bl], r.bl, r.n))
 			}
 			delete(got, r.bl)
 		}
 		for bl, n := range got {
-			g.h.Fail("count-mismatch", fmt.Sprintf("%s: %d spaces of bit length %d configured, none requested", op, n, bl))
+			g.h.Fail("C15:count-mismatch", fmt.Sprintf("%s: %d spaces of bit length %d configured, none requested", op, n, bl))
 		}
 	}
 	for _, c := range o.created {
 		if c.dir != g.kdirs[0] {
-			g.h.Fail("new-outside-dirs", fmt.Sprintf("%s: a new space %s was created outside the keeper's first directory", op, c))
+			g.h.Fail("C15:new-outside-dirs", fmt.Sprintf("%s: a new space %s was created outside the keeper's first directory", op, c))
 		}
 	}
 	g.rejectOracle(op, false, o)
@@ -386,7 +388,7 @@ func (g *G) opRestartCheck() {
 	}
 	g.opKeeper(ds)
 	if g.sk == nil {
-		g.h.Fail("restart-fails", "a keeper could not be created again on the configured directories")
+		g.h.Fail("C15:restart-fails", "a keeper could not be created again on the configured directories")
 		return
 	}
 	names, _ := g.listing()
@@ -394,10 +396,10 @@ func (g *G) opRestartCheck() {
 	g.h.Res.OracleEvals++
 	names2, _ := g.listing()
 	if g.lastSel != lastSel {
-		g.h.Fail("restart-differs", fmt.Sprintf("after a restart the request `%s` selects %s, before the restart %s", lastOp, g.lastSel, lastSel))
+		g.h.Fail("C15:restart-differs", fmt.Sprintf("after a restart the request `%s` selects %s, before the restart %s", lastOp, g.lastSel, lastSel))
 	}
 	if len(names2) != len(names) {
-		g.h.Fail("restart-creates", fmt.Sprintf("after a restart the request `%s` created files again", lastOp))
+		g.h.Fail("C15:restart-creates", fmt.Sprintf("after a restart the request `%s` created files again", lastOp))
 	}
 }
 
@@ -586,4 +588,101 @@ func (g *G) generate() {
 	if r.Intn(2) == 0 {
 		g.opRestartCheck()
 	}
+}
+
+// ---- oracle-only scenarios (not sent to the model) ----
+
+// faultScenario: the wallet fails while a configuration request is creating spaces.  Whatever the request and
+// wherever the failure: no plot file that existed before the request may be gone afterwards (C11: no operation
+// other than delete erases plot data).
+func (g *G) faultScenario(i int) {
+	r := g.h.Rng
+	g.reset()
+	for j, n := 0, 2+r.Intn(4); j < n; j++ {
+		g.opSeed(r.Intn(2), []int{24, 24, 26}[r.Intn(3)], r.Intn(2) == 0)
+	}
+	g.opKeeper([]int{0, 1})
+	if g.sk == nil {
+		return
+	}
+	before, _ := g.listing()
+	g.w.failIn = 1 + r.Intn(4)
+	var err error
+	what := ""
+	switch i % 3 {
+	case 0:
+		// two directories: the first keeps its spaces and is topped up with exactly one new space, then the wallet
+		// fails on the first key for the second directory (after every up-front check has passed)
+		what = "ConfigureByPath with a wallet failing at the second directory"
+		var t [2]uint64
+		for _, s := range g.indexed() {
+			if s.dir < 2 {
+				t[s.dir] += sizes[s.bl]
+			}
+		}
+		g.w.failIn = 2
+		_, err = g.sk.ConfigureByPath([]string{g.dirs[0], g.dirs[1]}, []int{int(t[0] + sizes[24]), int(t[1] + 2*sizes[24])}, false, false)
+	case 1:
+		what = "ConfigureBySize with a wallet failing during creation"
+		_, err = g.sk.ConfigureBySize(12*sizes[24], false, false)
+	default:
+		what = "ConfigureByBitLength with a wallet failing during creation"
+		_, err = g.sk.ConfigureByBitLength(map[int]int{24: 9}, false, false)
+	}
+	g.w.failIn = 0
+	after, _ := g.listing()
+	g.h.Res.OracleEvals++
+	have := map[string]bool{}
+	for _, n := range after {
+		have[n] = true
+	}
+	for _, n := range before {
+		if !have[n] {
+			g.h.Fail("C11:configure-deleted-files", fmt.Sprintf("%s (result: %v): the plot file %s, present before the request, is gone", what, err, n))
+		}
+	}
+	g.sk = nil
+}
+
+// guardScenario: a configuration is in progress (parked inside the wallet); a second request is refused
+// (ErrSpaceKeeperIsConfiguring) — and so must a third one be: only one configuration runs at a time.
+func (g *G) guardScenario() {
+	g.reset()
+	g.opKeeper([]int{0})
+	if g.sk == nil {
+		return
+	}
+	g.w.park, g.w.parked = make(chan struct{}), make(chan struct{}, 1)
+	park := g.w.park
+	done := make(chan error, 1)
+	go func() { _, err := g.sk.ConfigureBySize(sizes[24], false, false); done <- err }()
+	select {
+	case <-g.w.parked:
+	case err := <-done:
+		g.h.Fail("C15:guard-setup", fmt.Sprintf("the first request did not reach the wallet: %v", err))
+		return
+	}
+	_, err2 := g.sk.ConfigureBySize(sizes[24], false, false)
+	third := make(chan error, 1)
+	go func() { _, err := g.sk.ConfigureBySize(sizes[24], false, false); third <- err }()
+	var err3 error
+	select {
+	case err3 = <-third:
+	case <-time.After(2 * time.Second):
+		err3 = nil // it is running alongside the first one (it will finish once the wallet answers)
+	}
+	close(park)
+	err1 := <-done
+	if err3 == nil {
+		select {
+		case err3 = <-third:
+		case <-time.After(5 * time.Second):
+		}
+	}
+	_, files := g.listing()
+	g.h.Res.OracleEvals++
+	if err1 != nil || errName(err2) == "ok" || err3 == nil || errName(err3) == "ok" || len(files) != 1 || atomic.LoadInt32(&g.w.maxAct) > 1 {
+		g.h.Fail("C15:concurrent-configure", fmt.Sprintf("three overlapping requests for one 96 MiB space: results %v / %v / %v, %d plot files, %d wallet calls at once (want: ok / refused / refused, 1 file)", err1, err2, err3, len(files), g.w.maxAct))
+	}
+	g.sk = nil
 }
